@@ -22,6 +22,7 @@ fn main() {
         start_peer_id: 0,
         defer: false,
         wraps: 0,
+        send_faults: false,
     };
     let cfgs = match run.tier {
         Tier::Quick => vec![
@@ -34,6 +35,8 @@ fn main() {
             NCfg { addrs: 2, disconnects: 2, remote_sends: 1, net_sends: 1, advances: 0, start_peer_id: u32::MAX - 1, ..base.clone() },
             // the application leaves connection requests undecided across other peers' traffic and ticks
             NCfg { defer: true, addrs: 2, remote_sends: 0, net_sends: 1, advances: 2, ..base.clone() },
+            // the environment refuses the close datagram of a disconnect
+            NCfg { send_faults: true, addrs: 2, disconnects: 2, remote_sends: 0, net_sends: 1, advances: 0, ..base.clone() },
             // the peer id counter comes round onto live peers
             NCfg { wraps: 1, addrs: 3, remote_sends: 0, net_sends: 0, advances: 0, disconnects: 1, ..base.clone() },
             NCfg { accepting: false, wraps: 1, addrs: 3, net_connects: 3, remote_sends: 0, net_sends: 0, advances: 0, ..base.clone() },
@@ -47,6 +50,7 @@ fn main() {
             NCfg { accepting: false, addrs: 2, net_connects: 2, remote_sends: 1, net_sends: 1, advances: 2, drops: 1, garbage: 0, ..base.clone() },
             NCfg { defer: true, addrs: 2, remote_sends: 1, net_sends: 1, advances: 2, disconnects: 1, ..base.clone() },
             NCfg { defer: true, addrs: 3, remote_sends: 0, net_sends: 1, advances: 2, ..base.clone() },
+            NCfg { send_faults: true, addrs: 3, disconnects: 2, remote_sends: 1, net_sends: 1, advances: 1, ..base.clone() },
             NCfg { wraps: 2, addrs: 4, remote_sends: 0, net_sends: 0, advances: 0, disconnects: 1, ..base.clone() },
         ],
     };
